@@ -64,6 +64,9 @@ def feature_programs():
         "oneof_timestamp_only": 'import "google/protobuf/timestamp.proto";\nmessage M { oneof g { google.protobuf.Timestamp t = 1; string s = 2; } }',
         "optional_enum_named_none": "enum AllOrNone { ALL_OR_NONE_UNSPECIFIED = 0; ALL_OR_NONE_ALL = 1; } message M { optional AllOrNone a = 1; oneof g { AllOrNone b = 2; int32 c = 3; } }",
         "builtin_named_after_use": "message M { repeated string names = 1; optional int32 n = 2; string str = 3; int32 int = 4; }",
+        "user_entry_message": "message Order { message LinesEntry { string key = 1; int32 value = 2; string note = 3; } repeated LinesEntry lines = 2; map<string, int32> real = 3; }",
+        "deprecated_in_oneof": "message M { oneof g { string email = 1; string fax = 2 [deprecated = true]; int32 n = 3; } int32 old = 4 [deprecated = true]; }",
+        "enum_member_names": "enum Version { VERSION_UNSPECIFIED = 0; VERSION_1 = 1; VERSION_2FA = 2; VERSION = 3; version_x = 4; } enum HttpCode { HTTP_CODE_0 = 0; HTTP_CODE_404 = 404; } message M { Version v = 1; repeated HttpCode c = 2; }",
         "oneof_only": "message V { int32 x = 1; } enum E { E_Z = 0; E_N = -1; } message M { oneof g { int32 a = 1; V v = 2; E e = 3; string s = 4; } }",
         "enum_only": "enum E { E_Z = 0; E_A = 1; } message M { E e = 1; }",
         "scalars_only": "message M { int32 a = 1; string b = 2; bytes c = 3; double d = 4; bool e = 5; }",
@@ -90,6 +93,10 @@ def feature_programs():
             "feat/a/a.proto": 'syntax = "proto3";\npackage feat.a;\nimport "%s";\nmessage A { %s w = 1; }\n' % (imp, ty),
             "feat/b/b.proto": 'syntax = "proto3";\npackage feat.b;\nimport "%s";\nmessage B { %s w = 1; }\n' % (imp, ty),
             "zz/c.proto": 'syntax = "proto3";\npackage zz;\nimport "%s";\nmessage C { %s w = 1; int32 n = 2; }\n' % (imp, ty)}))
+    # one message name in two packages of one run, with different map fields (what is remembered per message name must not mix them up)
+    out.append(("same_message_name_in_two_packages", {
+        "demo/v1/c.proto": 'syntax = "proto3";\npackage demo.v1;\nmessage Config { map<string, string> labels = 1; map<int32, bool> flags = 2; message Inner { int32 x = 1; } map<string, Inner> inners = 3; }\n',
+        "demo/v2/c.proto": 'syntax = "proto3";\npackage demo.v2;\nmessage Config { map<string, int64> labels = 1; map<string, double> limits = 2; message Inner { string y = 1; } map<int64, Inner> inners = 3; repeated string flags = 4; }\n'}))
     return out
 
 
